@@ -81,6 +81,38 @@ type Outcome struct {
 	Tape        *Tape
 }
 
+// PanicInRepo reports whether the first panic of the run was raised by code of
+// gotd/td (file under /repo) rather than by the harness.
+func (o *Outcome) PanicInRepo() bool {
+	if o.Panic == "" {
+		return false
+	}
+	lines := strings.Split(o.Panic, "\n")
+	seenPanic := false
+	for _, l := range lines {
+		t := strings.TrimSpace(l)
+		if strings.HasPrefix(t, "panic(") {
+			seenPanic = true
+			continue
+		}
+		if seenPanic && strings.Contains(t, ".go:") {
+			if strings.Contains(t, "/runtime/") || strings.Contains(t, "/simrt/") || strings.Contains(t, "/simsync/") {
+				continue
+			}
+			return strings.HasPrefix(t, "/repo/") || strings.Contains(t, "/verif/third_party/")
+		}
+	}
+	return false
+}
+
+// PanicLine is the first line of the panic (its value).
+func (o *Outcome) PanicLine() string {
+	if i := strings.IndexByte(o.Panic, '\n'); i >= 0 {
+		return o.Panic[:i]
+	}
+	return o.Panic
+}
+
 // NonTrivial: at least two tasks interleaved or at least one fault fired.
 func (o *Outcome) NonTrivial() bool {
 	n := 0
@@ -132,7 +164,7 @@ type Sim struct {
 // plain Go operation).
 var S *Sim
 
-const deadlockMsg = "deadlock: all goroutines in bubble are blocked"
+const deadlockMsg = "deadlock: " // "all goroutines in bubble are blocked" / "main bubble goroutine has exited but blocked goroutines remain"
 
 // Run executes world inside one synctest bubble under the scheduler.
 func Run(t *testing.T, tape *Tape, opt Options, world func(s *Sim)) *Outcome {
